@@ -575,6 +575,9 @@ func (e *Enc) encodeBuiltin(st *bstate, b *ssa.Builtin, call *ssa.CallCommon, re
 	case "copy":
 		return e.encodeCopy(st, call, resType, pos)
 	case "delete":
+		if fa := growOnlyField(e, call.Args[0]); fa != "" {
+			e.oblige(st, "grow-only", e.anchor(pos, "delete from grow-only map "+fa), "false", pos)
+		}
 		m := arg(0).T
 		k := e.asTerm(arg(1))
 		mt := call.Args[0].Type().Underlying().(*types.Map)
@@ -852,9 +855,22 @@ func (e *Enc) afterLock(st *bstate, mu ssa.Value) {
 					e.assert(sNot(sEq(nvv.T, r)))
 				}
 			}
+			grow := g.GrowOnly[fn]
+			if grow {
+				// rely: once set the field keeps its map
+				e.assert(sImp(sNot(sEq(app("select", old, owner.T), "0")), sEq(nvv.T, app("select", old, owner.T))))
+			}
 			switch u := ft.Underlying().(type) {
 			case *types.Map:
 				d, v, l := e.W.mapComps(u)
+				if grow {
+					// rely: other goroutines only add keys
+					od := e.heapVar(st, d)
+					defer func(d *Comp, od string, nvv Val, ks string) {
+						nd := app("select", e.heapVar(st, d), nvv.T)
+						e.assert(sImp(sNot(sEq(nvv.T, "0")), fmt.Sprintf("(forall ((q %s)) (! (=> (select (select %s %s) q) (select %s q)) :pattern ((select %s q))))", ks, od, nvv.T, nd, nd)))
+					}(d, od, nvv, e.W.sortOf(u.Key()))
+				}
 				defer func(v *Comp, u *types.Map, nvv Val) {
 					if _, isPtr := types.Unalias(u.Elem()).Underlying().(*types.Pointer); isPtr {
 						cur := app("select", e.heapVar(st, v), nvv.T)
@@ -1133,4 +1149,36 @@ func mapFieldOfFuncValue(v ssa.Value) *ssa.FieldAddr {
 		}
 	}
 	return nil
+}
+
+
+// growOnlyField: v is a map loaded from a struct field declared grow-only ("guarded T: f+ by mu").
+func growOnlyField(e *Enc, v ssa.Value) string {
+	ld, ok := v.(*ssa.UnOp)
+	if !ok || ld.Op != token.MUL {
+		return ""
+	}
+	fa, ok := ld.X.(*ssa.FieldAddr)
+	if !ok {
+		return ""
+	}
+	return e.growOnlyFieldAddr(fa)
+}
+
+func (e *Enc) growOnlyFieldAddr(fa *ssa.FieldAddr) string {
+	pt, ok := fa.X.Type().Underlying().(*types.Pointer)
+	if !ok {
+		return ""
+	}
+	si := e.W.structInfo(pt.Elem())
+	if si == nil {
+		return ""
+	}
+	fn := si.St.Field(fa.Field).Name()
+	for _, g := range e.guardsFor(pt.Elem()) {
+		if g.GrowOnly[fn] {
+			return fn
+		}
+	}
+	return ""
 }
